@@ -8,6 +8,7 @@ import (
 	"go/token"
 	"go/types"
 	"path/filepath"
+	"regexp"
 	"sort"
 	"strings"
 
@@ -41,6 +42,119 @@ type skWalker struct {
 	closures map[string]*skFn
 	extra    *[]*skFn
 	locals   map[types.Object]string // nsrc: local variable -> %k
+	pure     map[types.Object]ast.Expr // nsrc: local defined once by a pure primary expression -> that expression
+}
+
+// pureLocals: the local variables of a function body that are defined exactly once, by `x := e` with ONE name on
+// the left, never assigned, incremented or address-taken afterwards, where e is a primary expression without
+// side effects (a conversion or len/cap of side-effect-free operands) whose own variables are never assigned
+// after their definition either. A condition that mentions such a variable is written with e in its place:
+// extracting a loop bound or a sub-expression of a condition into a local is invisible to the skeleton.
+func pureLocals(info *types.Info, body *ast.BlockStmt) map[types.Object]ast.Expr {
+	defs := map[types.Object]ast.Expr{}
+	writes := map[types.Object]int{}
+	obj := func(e ast.Expr) types.Object {
+		id, ok := e.(*ast.Ident)
+		if !ok {
+			return nil
+		}
+		if o := info.Defs[id]; o != nil {
+			return o
+		}
+		return info.Uses[id]
+	}
+	ast.Inspect(body, func(n ast.Node) bool {
+		switch x := n.(type) {
+		case *ast.AssignStmt:
+			for _, l := range x.Lhs {
+				if o := obj(l); o != nil {
+					writes[o]++
+				}
+			}
+			if x.Tok == token.DEFINE && len(x.Lhs) == 1 && len(x.Rhs) == 1 {
+				if o := obj(x.Lhs[0]); o != nil {
+					defs[o] = x.Rhs[0]
+				}
+			}
+		case *ast.ValueSpec: // var x = e
+			for _, nm := range x.Names {
+				if o := info.Defs[nm]; o != nil {
+					writes[o]++
+				}
+			}
+			if len(x.Names) == 1 && len(x.Values) == 1 {
+				if o := info.Defs[x.Names[0]]; o != nil {
+					defs[o] = x.Values[0]
+				}
+			}
+		case *ast.IncDecStmt:
+			if o := obj(x.X); o != nil {
+				writes[o] += 2
+			}
+		case *ast.UnaryExpr:
+			if x.Op == token.AND {
+				if o := obj(x.X); o != nil {
+					writes[o] += 2
+				}
+			}
+		case *ast.RangeStmt:
+			for _, e := range []ast.Expr{x.Key, x.Value} {
+				if e != nil {
+					if o := obj(e); o != nil {
+						writes[o] += 2
+					}
+				}
+			}
+		}
+		return true
+	})
+	var sideEffectFree func(e ast.Expr) bool
+	sideEffectFree = func(e ast.Expr) bool {
+		switch x := e.(type) {
+		case *ast.BasicLit:
+			return true
+		case *ast.Ident:
+			if v, ok := info.Uses[x].(*types.Var); ok && !v.IsField() && v.Parent() != nil && v.Pkg() != nil && v.Parent() != v.Pkg().Scope() {
+				return writes[v] <= 1 // a local: defined (or a parameter: never written), not changed afterwards
+			}
+			_, isConst := info.Uses[x].(*types.Const)
+			_, isType := info.Uses[x].(*types.TypeName)
+			_, isBuiltin := info.Uses[x].(*types.Builtin)
+			return isConst || isType || isBuiltin
+		case *ast.SelectorExpr:
+			_, isConst := info.Uses[x.Sel].(*types.Const)
+			return isConst
+		case *ast.ParenExpr:
+			return sideEffectFree(x.X)
+		case *ast.UnaryExpr:
+			return x.Op != token.AND && x.Op != token.ARROW && sideEffectFree(x.X)
+		case *ast.BinaryExpr:
+			return sideEffectFree(x.X) && sideEffectFree(x.Y)
+		case *ast.CallExpr:
+			if tv, ok := info.Types[x.Fun]; ok && tv.IsType() && len(x.Args) == 1 {
+				return sideEffectFree(x.Args[0]) // a conversion
+			}
+			if id, ok := x.Fun.(*ast.Ident); ok && (id.Name == "len" || id.Name == "cap") && len(x.Args) == 1 {
+				if _, isBuiltin := info.Uses[id].(*types.Builtin); isBuiltin {
+					return sideEffectFree(x.Args[0])
+				}
+			}
+		}
+		return false
+	}
+	out := map[types.Object]ast.Expr{}
+	for o, e := range defs {
+		if writes[o] != 1 {
+			continue
+		}
+		if _, primary := e.(*ast.CallExpr); !primary {
+			continue // (an operator expression would need parentheses the un-extracted form does not have)
+		}
+		if sideEffectFree(e) {
+			out[o] = e
+		}
+	}
+	return out
 }
 
 func (w *skWalker) src(n ast.Node) string {
@@ -78,6 +192,11 @@ func (w *skWalker) nsrc(n ast.Node) string {
 		if !ok || v.IsField() || v.Pkg() == nil || v.Parent() == nil || v.Parent() == v.Pkg().Scope() {
 			return true
 		}
+		if e, ok := w.pure[obj]; ok && w.p.TypesInfo.Uses[id] != nil {
+			undo = append(undo, saved{id, id.Name})
+			id.Name = w.nsrc(e)
+			return true
+		}
 		nm, seen := w.locals[obj]
 		if !seen {
 			nm = fmt.Sprintf("%%%d", len(w.locals)+1)
@@ -87,12 +206,16 @@ func (w *skWalker) nsrc(n ast.Node) string {
 		id.Name = nm
 		return true
 	})
-	out := w.src(n)
+	out := opSpace.ReplaceAllString(w.src(n), "$1")
 	for _, u := range undo {
 		u.id.Name = u.name
 	}
 	return out
 }
+
+// go/printer writes `a-b` or `a - b` depending on the precedence of the surrounding expression: conditions are
+// compared without blanks around binary operators, so that the same expression reads the same wherever it stands
+var opSpace = regexp.MustCompile(`\s*(==|!=|<=|>=|&&|\|\||<<|>>|&\^|[-+*/&|^<>])\s*`)
 
 func (w *skWalker) emit(kind, a string, b ...string) {
 	h := append([]string(nil), w.held...)
@@ -173,7 +296,7 @@ func (w *skWalker) stmt(s ast.Stmt) {
 			if id, ok := x.Lhs[0].(*ast.Ident); ok {
 				if fl, ok := x.Rhs[0].(*ast.FuncLit); ok {
 					sub := &skFn{name: w.fn.name + "$" + id.Name, file: w.fn.file, calls: map[string]bool{}}
-					sw := &skWalker{p: w.p, fn: sub, closures: w.closures, extra: w.extra}
+					sw := &skWalker{p: w.p, fn: sub, closures: w.closures, extra: w.extra, pure: pureLocals(w.p.TypesInfo, fl.Body)}
 					sw.stmts(fl.Body.List)
 					w.closures[id.Name] = sub
 					*w.extra = append(*w.extra, sub)
@@ -504,7 +627,7 @@ func emitSkeleton(b *strings.Builder, p *packages.Package) error {
 			}
 			fn := &skFn{name: fnName(fd), file: file, calls: map[string]bool{}}
 			var extra []*skFn
-			w := &skWalker{p: p, fn: fn, closures: map[string]*skFn{}, extra: &extra}
+			w := &skWalker{p: p, fn: fn, closures: map[string]*skFn{}, extra: &extra, pure: pureLocals(p.TypesInfo, fd.Body)}
 			w.stmts(fd.Body.List)
 			fns = append(fns, extra...)
 			// keep fsnotify.go only for functions with concurrency content
